@@ -36,7 +36,7 @@ ASSUMPTIONS = [
     "hand-subscribing two singleton observers built with subscribe=False is counted, not judged "
     "(the property's anchor is the constructor guard)",
 ]
-REQUIRED_COUNTERS = {"update_events_checked": 2000, "reset_events_checked": 50,
+REQUIRED_COUNTERS = {"history_observer_created_mid_history": 20, "update_events_checked": 2000, "reset_events_checked": 50,
                      "rejected_requests": 50, "singleton_guard_checks": 50,
                      "create_or_get_checks": 50, "unsubscribes": 50,
                      "history_observer_checks": 200}
@@ -171,7 +171,9 @@ def run_case(ctx, case):
                 script.append(("builtin_rejected", kind))
         elif ev < 0.31:
             warm(d)
-            d.reset(); r.reset(); model_hist = []
+            d.reset(); r.reset()
+            if model_hist is not None:
+                model_hist = []
             for s in subs:
                 if isinstance(s, Recorder):
                     expected.append((labels[id(s)], "reset", None, len(log)))
@@ -211,7 +213,11 @@ def run_case(ctx, case):
                         return
                     subs.append(ob); labels[id(ob)] = "HIST"
                     if hist is None:
-                        hist = ob; model_hist = None  # subscribed mid-history: not compared
+                        # subscribed mid-history: it must record the dispatches made from now on
+                        hist = ob; model_hist = []; ctx.count("history_observer_created_mid_history")
+                        if ob.history:
+                            ctx.violation("c10_history_observer_born_with_records",
+                                          {"records": len(ob.history), "script": script})
                 except ValidationError:
                     if not exists:
                         ctx.violation("c10_singleton_rejected_without_existing",
@@ -252,7 +258,10 @@ def run_case(ctx, case):
                         ctx.violation("c10_create_or_get_did_not_create", {"which": which, "script": script})
                     subs.append(got); labels[id(got)] = "HIST"
                     if hist is None:
-                        hist = got; model_hist = None
+                        hist = got; model_hist = []; ctx.count("history_observer_created_mid_history")
+                        if got.history:
+                            ctx.violation("c10_history_observer_born_with_records",
+                                          {"records": len(got.history), "script": script})
             elif which == "recorder_label" and recs:
                 target = rng.choice(recs)
                 got = d.create_or_get_observer(
